@@ -200,10 +200,36 @@ func TestC12(t *testing.T) {
 			if tg == nil || tg.F == nil {
 				continue
 			}
+			// shadow paths (variant generated with -ignore_shadow_schema_paths): a leaf may be
+			// addressed through its shadow path; the delete takes effect exactly when the path kind
+			// matches the PreferShadowPath option, otherwise it is documented to be ignored.
+			var dopts []ytypes.DelNodeOpt
+			viaShadow, prefer := false, false
+			if v.IgnoreShadow {
+				prefer = rapid.Bool().Draw(rt, "prefer-shadow")
+				if prefer {
+					dopts = append(dopts, &ytypes.PreferShadowPath{})
+				}
+				if f := tg.F; (f.Kind == model.FLeaf || f.Kind == model.FLeafList) && len(f.Shadow) > 0 && rapid.Bool().Draw(rt, "via-shadow") {
+					viaShadow = true
+					tg.Elems = append(append([]model.PElem{}, tg.Elems[:len(tg.Elems)-len(f.Paths[tg.Alt])]...), pelems(f.Shadow[0])...)
+				}
+			}
 			p := model.PathProto(tg.Elems)
 			kind := targetKind(tg)
 			before := m.Clone()
-			existed := refDelete(m, tg)
+			existed, ignored := false, false
+			if shadowed := (tg.F.Kind == model.FLeaf || tg.F.Kind == model.FLeafList) && len(tg.F.Shadow) > 0 && viaShadow != prefer; shadowed {
+				// ignored path: nothing is deleted (the corpus variant with shadow paths has no
+				// presence containers, so there is no empty shell on the way that could be pruned)
+				kind += "-ignored-shadow"
+				ignored = true
+			} else {
+				existed = refDelete(m, tg)
+			}
+			if viaShadow {
+				kind += "-via-shadow-path"
+			}
 			step := fmt.Sprintf("DeleteNode(%s) [%s, data %v]", model.PathString(p), kind, existed)
 			hist = append(hist, step)
 			cl = append(cl, "target:"+kind, fmt.Sprintf("target-existed:%v", existed))
@@ -213,7 +239,7 @@ func TestC12(t *testing.T) {
 			desc := func() string {
 				return fmt.Sprintf("variant %s\nhistory:\n  %s\ntree before the last step:\n%s", v.Name, strings.Join(hist, "\n  "), before.Dump())
 			}
-			err := ytypes.DeleteNode(rs, root, p)
+			err := ytypes.DeleteNode(rs, root, p, dopts...)
 			wholeList := !tg.AtEntry && (tg.F.Kind == model.FList || tg.F.Kind == model.FOrdList)
 			if err != nil {
 				if rec.Excuse(th.F21, wholeList && th.IsNotFound(err)) {
@@ -234,7 +260,7 @@ func TestC12(t *testing.T) {
 				rt.Fatalf("after %s the tree differs from the reference:\n  %s\n%s\nreference after:\n%s", step, th.JoinDiff(d), desc(), m.Dump())
 			}
 			// nothing at or below p
-			if nodes, gerr := ytypes.GetNode(rs, root, p); gerr == nil {
+			if nodes, gerr := ytypes.GetNode(rs, root, p); gerr == nil && !ignored {
 				for _, n := range nodes {
 					if n.Data != nil && !reflect.ValueOf(n.Data).IsZero() {
 						rv := reflect.ValueOf(n.Data)
@@ -246,13 +272,15 @@ func TestC12(t *testing.T) {
 				}
 			}
 			// idempotence: an immediate second delete changes nothing
-			if err := ytypes.DeleteNode(rs, root, p); err != nil {
+			if err := ytypes.DeleteNode(rs, root, p, dopts...); err != nil {
 				if rec.Excuse(th.F21, wholeList && th.IsNotFound(err)) {
 					return
 				}
 				rt.Fatalf("second DeleteNode(%s) failed: %v\n%s", model.PathString(p), err, desc())
 			}
-			refDelete(m, tg)
+			if !ignored {
+				refDelete(m, tg)
+			}
 			got2 := observeKeepShells(v, root)
 			if d := model.Diff(m, got2, model.DiffOpts{LooseEnum: true}); len(d) > 0 {
 				rt.Fatalf("a repeated %s changed the tree:\n  %s\n%s", step, th.JoinDiff(d), desc())
